@@ -90,6 +90,9 @@ type Sched struct {
 	deadlock string
 	// unrepresentable: the schedule reached a state M1 cannot continue faithfully
 	unrepresentable bool
+	// unmodelled: a goroutine the scheduler does not control was seen inside
+	// repository code when a verdict was about to be given
+	unmodelled string
 	// Forced, when non-nil, dictates the first len(Forced) decisions (index into
 	// the role-sorted enabled set); afterwards index 0 is taken.  Choices
 	// records, for every decision, how many goroutines were enabled and which
@@ -127,7 +130,17 @@ var (
 	activeMu sync.Mutex
 	active   *Sched
 	hookOnce sync.Once
+	// everKnown holds the id of every goroutine a scheduler of this process has
+	// ever controlled (goroutine ids are not reused)
+	everMu    sync.Mutex
+	everKnown = map[int64]bool{}
 )
+
+func remember(id int64) {
+	everMu.Lock()
+	everKnown[id] = true
+	everMu.Unlock()
+}
 
 func globalHook(kind uint8, q any) {
 	activeMu.Lock()
@@ -281,6 +294,7 @@ func (s *Sched) hook(kind uint8, q any) {
 		s.pending--
 		s.helpers++
 		g = &gstate{id: id, role: fmt.Sprintf("helper%d", s.helpers)}
+		remember(id)
 		s.gs[id] = g
 		s.byRole[g.role] = g
 	}
@@ -297,6 +311,7 @@ func (s *Sched) Begin(role string) {
 	id := goid()
 	s.mu.Lock()
 	g := &gstate{id: id, role: role}
+	remember(id)
 	s.gs[id] = g
 	s.byRole[role] = g
 	s.park(g, kStart, nil)
@@ -528,6 +543,43 @@ func (s *Sched) Run(expected int) {
 			}
 		}
 		if len(cands) == 0 {
+			// "nobody can proceed" is only a verdict when the scheduler controls
+			// every goroutine that executes repository code in this schedule
+			s.mu.Unlock()
+			un := uncontrolledGoroutines()
+			s.mu.Lock()
+			// ... and when what it believes about the channels is what they are: a
+			// consumer believed to wait on an open empty channel must not find it closed
+			// (somebody the scheduler does not see closed it)
+			for _, r := range roles {
+				g := s.byRole[r]
+				if un != "" || !g.parked || g.kind != col.VerifRecv {
+					continue
+				}
+				ch := g.bound
+				if ch == nil {
+					s.mu.Unlock()
+					ch = s.tokens(g.q)
+					s.mu.Lock()
+				}
+				if ch == nil || s.closed[ch] {
+					continue
+				}
+				select {
+				case _, ok := <-ch:
+					if ok {
+						un = "a token appeared on a channel while every controlled goroutine was parked"
+					} else {
+						un = "a channel was closed by a step the scheduler did not see"
+					}
+				default:
+				}
+			}
+			if un != "" {
+				s.unrepresentable = true
+				s.unmodelled = un
+				return
+			}
 			var parts []string
 			for _, r := range roles {
 				g := s.byRole[r]
@@ -650,8 +702,65 @@ func (s *Sched) Stuck() bool      { return s.stuck }
 // NotClosed is non-empty when a CloseQueue step did not close the channel.
 func (s *Sched) NotClosed() string { return s.notClosed }
 
-// Unrepresentable: a committed goroutine became ready on a replaced channel.
+// Unrepresentable: a committed goroutine became ready on a replaced channel,
+// or (Unmodelled() non-empty) a goroutine outside the scheduler's control was
+// executing repository code when a verdict was due.
 func (s *Sched) Unrepresentable() bool { return s.unrepresentable }
+func (s *Sched) Unmodelled() string    { return s.unmodelled }
+
+// AbandonReason labels an abandoned schedule for the evidence.
+func (s *Sched) AbandonReason() string {
+	if s.unmodelled != "" {
+		return "m1.abandoned(goroutine-outside-the-scheduler's-control-in-repository-code)"
+	}
+	return "m1.abandoned(committed-goroutine-ready-on-a-replaced-channel)"
+}
+
+const repoPath = "github.com/craterdog/go-collection-framework/v4"
+
+// uncontrolledGoroutines looks at a dump of all goroutines for one that has a
+// frame of the repository on its stack, is not parked by a scheduler and has
+// never been controlled by one (goroutines left over from earlier schedules of
+// this process have been).  The library may legitimately be changed to use
+// helper goroutines that do not announce themselves; the scheduler's model of
+// "who can proceed" is then incomplete and its deadlock verdict must not be
+// given.
+func uncontrolledGoroutines() string {
+	buf := make([]byte, 4<<20)
+	buf = buf[:runtime.Stack(buf, true)]
+	everMu.Lock()
+	defer everMu.Unlock()
+	for _, block := range strings.Split(string(buf), "\n\n") {
+		if !strings.HasPrefix(block, "goroutine ") || !strings.Contains(block, repoPath) {
+			continue
+		}
+		if strings.Contains(block, "conc.(*Sched).park") {
+			continue
+		}
+		head := block[len("goroutine "):]
+		sp := strings.IndexByte(head, ' ')
+		if sp < 0 {
+			continue
+		}
+		id, err := strconv.ParseInt(head[:sp], 10, 64)
+		if err != nil || everKnown[id] {
+			continue
+		}
+		line := head
+		if nl := strings.IndexByte(line, '\n'); nl >= 0 {
+			line = line[:nl]
+		}
+		fn := ""
+		for _, l := range strings.Split(block, "\n") {
+			if strings.Contains(l, repoPath) && !strings.HasPrefix(l, "\t") {
+				fn = l
+				break
+			}
+		}
+		return "goroutine " + line + " in " + fn
+	}
+	return ""
+}
 
 func sortStrings(a []string) {
 	for i := 1; i < len(a); i++ {
